@@ -94,7 +94,7 @@ def frame_ground(check_id, functions, modifies_of, what, callee_effects=None, fr
                               'what': f'{g.__module__}.{name} line {st.lineno}: `{st.text[:90]}` {st.why[:160]}',
                               'function': f'{g.__module__}.{name}'})
         return {'obligations': n, 'discharged': n - len(fails), 'evaluations': n, 'distinct': n, 'exhaustive': True,
-                'functions_under_frame_contract': nfun, 'manually_justified_stores': recs, 'skipped': skipped,
+                'count_each': True, 'functions_under_frame_contract': nfun, 'manually_justified_stores': recs, 'skipped': skipped,
                 'scope': what, 'failures': fails}
     return run
 
